@@ -32,6 +32,7 @@ THEOREMS = [
     'Pyiga.Props.C10.combine_bcs_ok',
     'Pyiga.Props.C10.combine_bcs_spec',
     'Pyiga.Props.C10.combine_bcs_value', 'Pyiga.Props.C10.combine_bcs_indices_order_independent',
+    'Pyiga.Props.C10.combine_bcs_disjoint_order_independent',
     'Pyiga.Props.C10.blocked_numbering_injective',
     'Pyiga.Props.C10.dirichlet_bcs_once',
     'Pyiga.Props.C10.multipatch_bcs_once',
@@ -44,7 +45,7 @@ THEOREMS = [
     'Pyiga.Slice.sliceMulti_flip',
 ]
 MODULES = ['Pyiga.Model.Index', 'Pyiga.Model.Slice', 'Pyiga.Model.Restrict', 'Pyiga.Proofs.Index',
-           'Pyiga.Proofs.Slice', 'Pyiga.Proofs.Restrict', 'Pyiga.Props.C10']
+           'Pyiga.Proofs.Slice', 'Pyiga.Proofs.Restrict', 'Pyiga.Proofs.CombineDisjoint', 'Pyiga.Props.C10']
 
 NAMES = ['left', 'right', 'bottom', 'top', 'front', 'back']
 
